@@ -5,6 +5,7 @@ import XmlRsModel.CharData
 import Driver.Dump
 import Driver.XPathOps
 import Driver.DomOps
+import Driver.CliOps
 /-! Operations of the model driver. -/
 namespace Driver
 open XmlRs
@@ -142,6 +143,8 @@ def dispatch (op : String) (args : List Str) : String :=
   | "query", t :: b :: es => opQuery "rz" t b es
   | "qfresh", t :: b :: es => opQuery "rz" t b es
   | "queryq", q :: t :: b :: es => opQuery (String.ofList q) t b es
+  | "xq", [q, t, b, e] => opXq (String.ofList q) t b e
+  | "xe", [q, t, b, e, v] => opXe (String.ofList q) t b e v
   | _, _ => "bad-op"
 
 end Driver
